@@ -1,6 +1,9 @@
 package client
 
-import "time"
+import (
+	"net"
+	"time"
+)
 
 // Accessors for the harnesses of the root package (exist only in the overlay).
 
@@ -21,3 +24,10 @@ func VMaxRetryAttempts() int                 { return maxRetryAttempts }
 func VDefaultPermRefresh() time.Duration     { return defaultPermRefreshInterval }
 func VDefaultBindingRefresh() time.Duration  { return defaultBindingRefreshInterval }
 func VDefaultBindingCheck() time.Duration    { return defaultBindingCheckInterval }
+
+// VBind installs a confirmed channel binding for addr on the relayed socket and returns its number.
+func VBind(c *UDPConn, addr net.Addr) uint16 {
+	b := c.bindingMgr.create(addr)
+	b.setState(bindingStateReady)
+	return b.number
+}
